@@ -318,7 +318,7 @@ def run(prog, rep):
             return None, None
         # the full value: exits taken by `?` included (a check delegated to a helper that is called with `?` is still a check)
         full = getattr(s, "ret_full", None) or s.ret
-        full = nz(partial.simplify(vs.unframe(full)))
+        full = nz(partial.simplify(vs.unframe(result_combinators(full, f.path))))
         if vs.shared:
             check_restored(shape, s, full)
         return s, nz(strip_prop(full))
@@ -498,6 +498,29 @@ def run(prog, rep):
     check_pass_through(prog, rep)
 
 
+def result_combinators(t, vpath, memo=None):
+    """`validate(child, ..).map(|node| rebuild(node))` on the recursive call (a Result): Ok(rebuild(node)) when the call succeeded, its
+    error otherwise - the same value as `rebuild(validate(child, ..)?)` wrapped in Ok."""
+    if memo is None:
+        memo = {}
+    if not isinstance(t, tuple) or not t:
+        return t
+    hit = memo.get(id(t))
+    if hit is not None and hit[0] is t:
+        return hit[1]
+    r = tuple(result_combinators(x, vpath, memo) if isinstance(x, tuple) else x for x in t)
+    if r[0] == "hof" and r[1] in ("map", "and_then") and r[2][0] in ("call", "rec") and isinstance(r[2][1], str) and r[2][1] == vpath:
+        recv, body = r[2], r[3]
+        okp = ("proj", recv, norm.OK, 0)
+        body2 = terms.replace(terms.replace(body, ("proj", recv, norm.SOME, 0), okp), ("payload", recv), okp)
+        good = ("ctor", norm.OK, (body2,)) if r[1] == "map" else body2
+        r = ("ite", ("matches", recv, norm.OK_DESC), good, ("ctor", "std::prelude::v1::Err", (("proj", recv, "std::prelude::v1::Err", 0),)))
+    elif len(r) == len(t) and all(a is b for a, b in zip(r, t)):
+        r = t
+    memo[id(t)] = (t, r)
+    return r
+
+
 def check_tries(rep, s, key, n, where, vpath="validate_and_rename_recursive"):
     """The `?` exits of the specialised validator propagate exactly the recursive calls' results."""
     if s is None:
@@ -507,6 +530,8 @@ def check_tries(rep, s, key, n, where, vpath="validate_and_rename_recursive"):
     if len(tries) != n:
         # the `?` may live in a helper that was inlined: then the exit is part of the value - a leaf Err(e) with e the error of a recursive call
         full = getattr(s, "ret_full", None) or s.ret
+        full = result_combinators(full, next((r_[0][1] for r_ in s.returns if r_[0][0] in ("call", "rec") and isinstance(r_[0][1], str) and r_[0][1].endswith(vpath)),
+                                             next((y[1] for y in subterms(full) if y[0] in ("call", "rec") and isinstance(y[1], str) and y[1].endswith(vpath)), vpath)))
         props = set()
         for x in [full] + list(subterms(full)):
             if x[0] == "ctor" and str(x[1]).rsplit("::", 1)[-1] == "Err" and len(x[2]) == 1 and x[2][0][0] == "proj" and str(x[2][0][2]).rsplit("::", 1)[-1] == "Err":
